@@ -56,7 +56,7 @@ def run(prop, tier):
     # address has its own budget (Admission.tla histories against the real Listener, judged by Trace_Listener)
     import listener_check
     lscs, lnotes = listener_check.scenarios("C15", tier, seed, wd)
-    lscs = [x for x in lscs if x["cfg"]["limit"] > 0][: (9 if tier == "quick" else 40)]
+    lscs = [x for x in lscs if x["cfg"]["limit"] > 0][: (10 if tier == "quick" else 40)]
     linp, loutp = os.path.join(wd, "listener_in.ndjson"), os.path.join(wd, "listener_obs.ndjson")
     vlib.write_ndjson(linp, lscs)
     vlib.run_bin(hx, ["listener", "--in", linp, "--out", loutp, "--parallel", "8"], timeout=1800)
